@@ -536,7 +536,7 @@ Proof.
   - discriminate.
   - destruct (find_dur _ _) as [[?|?]|]; discriminate.
   - destruct (has_prefix _ _); discriminate.
-  - discriminate.
+  - destruct (has_prefix _ _); discriminate.
 Qed.
 
 (* pointee kept when the conversion of a pointer field fails *)
